@@ -456,12 +456,17 @@ def c10(tier):
 def c11(tier):
     build(("release",))
     c = Check("C11", tier, "exploration")
-    tasks = seed_tasks(Q(tier, "default", "two"), sample_every=Q(tier, 211, 499))
-    tasks += program_tasks(tier, Q(tier, "default", "two"), [PLAIN, COMMENTS], sample_every=Q(tier, 499, 4999))
-    tasks += mlshape_tasks(tier, "default", sample_every=Q(tier, 997, 9973))
+    # "x other settings": the widths are varied by the harness; everything else rotates
+    cfgs = [{}, {"begin_style": "always_wrap"}, {"format_multiline_strings": False}, {"continuation_indents": 1}, {"continuation_indents": 3, "tab_width": 3},
+            {"begin_style": "always_wrap", "continuation_indents": 4, "tab_width": 4}, {"tab_width": 4, "continuation_indents": 1}, {"line_ending": "crlf", "format_multiline_strings": False, "continuation_indents": 0}]
+    tasks = seed_tasks(cfgs, sample_every=Q(tier, 211, 499), cfg_mode="rotate")
+    if tier == "thorough":
+        tasks += seed_tasks(cfgs[:4], sample_every=499)
+    tasks += program_tasks(tier, cfgs, [PLAIN, COMMENTS], cfg_mode="rotate", sample_every=Q(tier, 499, 4999))
+    tasks += mlshape_tasks(tier, cfgs, cfg_mode="rotate", sample_every=Q(tier, 997, 9973))
     c.explore(tasks, "width", ["C11"], sample_cap=Q(tier, 12, 100))
     return c.finish(
-        rule="seeds and generated programs formatted at widths {10,20,40,80,120,200} plus the critical widths around the line lengths of their own output; every pair W1 < W2 is a `width` relation of Session.tla (three clauses)")
+        rule="seeds, generated programs and statements with several multi-line literals, formatted at widths {10,20,40,80,120,200} plus the critical widths around the line lengths of their own output, under rotating settings of begin_style, format_multiline_strings, continuation_indents, tab_width and line_ending (spaces only: a tab has no column width of its own); every pair W1 < W2 is a `width` relation of Session.tla (three clauses)")
 
 
 def c15(tier):
